@@ -52,6 +52,12 @@ Section Hand.
              (outer_major_axis_radius outer_axis_ratio : T) (outer_cs pixel_scales origin centre : T * T) (invert : bool) :=
     Mask2D_new (mask_2d_elliptical_annular_from_cs shape_native pixel_scales inner_major_axis_radius inner_axis_ratio inner_cs
                                                    outer_major_axis_radius outer_axis_ratio outer_cs centre) pixel_scales origin invert.
+  (* Grid1D.uniform_from_zero (hand model in the code's shape: the origin-0 pixel centres minus their minimum, handed to no_mask) *)
+  Definition list_min (l : list T) : T := fold_left (fun a b => if ltb O b a then b else a) l (hd zero l).
+  Definition Grid1D_uniform_from_zero (shape_native : Z) (pixel_scales : T) : list T * (list bool * T * T) :=
+    let grid_slim := grid_1d_slim_via_shape_slim_from shape_native pixel_scales zero in
+    let grid_slim := map (fun v => sub O v (list_min grid_slim)) grid_slim in
+    Grid1D_no_mask grid_slim pixel_scales zero.
 End Hand.
 
 Definition eqq (tol : Q) : Q -> Q -> bool := qtol tol.
@@ -116,6 +122,7 @@ Definition agree (k : case) : bool :=
   | KUniform1C n s o tol out => g1obj_tol tol (@Grid1D_uniform QOps n s o) out
   | KFromMask1C M tol out => g1obj_tol tol (@Grid1D_from_mask QOps M) out
   | KDeriveAllFalse1 M tol out => true       (* not modelled: the specification alone judges it (see props/C02.findings.json) *)
+  | KUniformFromZero1 n s tol out => g1obj_tol tol (@Grid1D_uniform_from_zero QOps n s) out
   end.
 
 Definition check (k : case) : nat := verdict (agree k) (spec_ok k).
